@@ -25,7 +25,7 @@ meta = {
     "property": prop,
     "variant": os.environ.get("SEEDNAME", var),
     "origin": "fresh sub-agent given only the property text and a scratch worktree of /repo",
-    "round": 3 if os.environ.get("SEEDSRC", "").endswith("seed3") else 2 if os.environ.get("SEEDSRC", "").endswith("seed2") else 1,
+    "round": 4 if os.environ.get("SEEDSRC", "").endswith("seed4") else 3 if os.environ.get("SEEDSRC", "").endswith("seed3") else 2 if os.environ.get("SEEDSRC", "").endswith("seed2") else 1,
     "needs_to_manifest": needs,
     "confirmed_by_me": {
         "worktree": "scratch worktree of /repo HEAD under /tmp/cf (removed afterwards)",
